@@ -89,6 +89,13 @@ func ctxOps() []cop {
 			}
 		}
 		ops = append(ops, cop{name: fmt.Sprintf("z%d=Add(nil,1.23456)", r), recv: r, kind: ckArith, op: opAdd, srcs: []int{5, 5}, nilArg: true})
+		if r == 0 {
+			for _, op := range []int{opSub, opMul, opQuo} {
+				ops = append(ops, cop{name: fmt.Sprintf("z%d=%s(nil,1.23456)", r, opNames[op]), recv: r, kind: ckArith, op: op, srcs: []int{5, 5}, nilArg: true})
+			}
+			ops = append(ops, cop{name: "z0=FMA(nil,1.23456,1e-3)", recv: r, kind: ckArith, op: opFMA, srcs: []int{5, 5, 6}, nilArg: true})
+			ops = append(ops, cop{name: "z0=Sqrt(nil)", recv: r, kind: ckArith, op: opSqrt, srcs: []int{5}, nilArg: true})
+		}
 	}
 	ops = append(ops, cop{name: "Err()", recv: -1, kind: ckErr})
 	for _, p := range []uint{0, 2, 5} {
@@ -516,7 +523,7 @@ func init() {
 		Rule: "states = distinct (context, variables) states reached by Context call histories; every transition executes the real Context method and is compared with the latch automaton {armed, latched} × reference rounding; all transitions are non-trivial",
 		Assumptions: []string{
 			"receivers are distinct from operands (as the property requires)",
-			"history depth 4 (quick) / 5 (thorough) over 128 instantiated calls",
+			"history depth 4 (quick) / 5 (thorough) over 133 instantiated calls",
 			"NewFloat64's value is C15's subject (<= 1 ulp) and only its precision/mode are judged here",
 		},
 		Layers: ctxLayers,
